@@ -140,3 +140,26 @@ Example C13_example :
   mol_consensus skip_fixed false (ex_mol ++ [[ex_rd false []]]) = IndexError.
 Proof. exact ex_mol_facts. Qed.
 Print Assumptions C13_example.
+
+Example C13_example_tie_and_N :
+  votes skip_fixed false ex_mol (0, 20) bA = votes skip_fixed false ex_mol (0, 20) bC /\
+  forallb (fun b => votes skip_fixed false ex_mol (0, 20) b <=? votes skip_fixed false ex_mol (0, 20) bA) acgt = true /\
+  frag_call skip_fixed false (nth 2 ex_mol []) (0, 20) = None /\
+  forallb (fun f => match frag_call skip_fixed false f (0, 22) with None => true | Some _ => false end) ex_mol = true /\
+  majority skip_fixed false ex_mol (0, 20) = None /\ majority skip_fixed false ex_mol (0, 21) = Some bG /\
+  specb skip_fixed false ex_mol [((0, 21), bG)] = true /\ specb skip_fixed false ex_mol [((0, 21), bG); ((0, 20), bA)] = false.
+Proof. exact ex_tie_facts. Qed.
+Print Assumptions C13_example_tie_and_N.
+Example C13_example_perm_double :
+  Permutation (rev ex_mol) ex_mol /\ mol_consensus skip_fixed false (rev ex_mol) = mol_consensus skip_fixed false ex_mol /\
+  mol_consensus skip_fixed false (ex_mol ++ rev ex_mol) = mol_consensus skip_fixed false ex_mol /\
+  mol_table skip_fixed false ex_mol [] = Ok [((0, 20), (1, 1, 0, 0, 0)); ((0, 21), (0, 0, 2, 1, 0))].
+Proof. exact ex_perm_facts. Qed.
+Print Assumptions C13_example_perm_double.
+Example C13_example_pick :
+  pick_best [Some (bA, 30); Some (bC, 30); Some (bA, 30)] = (bN, 0) /\
+  pick_best [Some (bA, 30); None; Some (bC, 37)] = (bC, 37) /\
+  pick_best [Some (bA, 0); Some (bA, 0)] = (bA, 0) /\ pick_best [None; None] = (bN, 0) /\
+  calls_nonneg [Some (bA, 30); None; Some (bC, 37)].
+Proof. exact ex_pick_facts. Qed.
+Print Assumptions C13_example_pick.
